@@ -697,6 +697,34 @@ class RenameStats(_Inferral):
         return "rename statistics"
 
 
+class TrackStat(_Inferral):
+    """The same class with one more statistic (t_0 = number of occurrences of the first
+    letter): the child carries a parameter that the parent does not have, so the parent's
+    terms and objects are the child's with that parameter summed out."""
+
+    def decomposition_function(self, c):
+        if c.right is not None or c.flags or c.just_prefix or any(k == "t_0" for k, _ in c.stats):
+            return None
+        return (c.with_(stats=list(c.stats) + [("t_0", c.alphabet[0])]),)
+
+    def extra_parameters(self, c, children=None):
+        return ({k: k for k in c.extra_parameters},)
+
+    # the child cannot be computed from the parent (the extra statistic is lost going up):
+    # not reversible, not two-way, and never treated as an equivalence
+    def can_be_equivalent(self):
+        return False
+
+    def is_two_way(self, c):
+        return False
+
+    def is_reversible(self, c):
+        return False
+
+    def formal_step(self):
+        return "track one more statistic"
+
+
 class ExpandFactory(StrategyFactory[WC]):
     """mode 0: yields strategies; 1: yields ready rules; 2: additionally the Expand rule
     of the class whose prefix is one letter shorter (a rule whose parent is another class);
@@ -1002,7 +1030,7 @@ def make_pack(opts=None):
     else:
         expand = ExpandFactory(mode=o["factory"], drop=o["drop"], plus=o["plus"])
     inf_map = {"minimise": MinimisePatterns, "deadstat": DropDeadStat, "merge": MergeStats,
-               "rename": RenameStats}
+               "rename": RenameStats, "track": TrackStat}
     inferral = [inf_map[name]() for name in o["inferral"]]
     split_pair = SplitPair(bar_first=o["order"] == 1)
     twice = [ExpandTwice(which=w, drop=o["drop"]) for w in o.get("twice") or ()]
